@@ -18,9 +18,9 @@ import (
 // Lock-step streaming: the backend writes part k, flushes and then blocks until the
 // harness confirms that the client has read part k through Helios. A part that has not
 // arrived 10 s after its flush, while the backend is still blocked, was held back.
-func streamOnce(h *helios, be *wire.Backend, ctype string, parts int, partSize int) (string, string) {
+func streamOnce(h *helios, be *wire.Backend, ctype string, parts int, partSize int, declared bool) (string, string) {
 	ack := make(chan int, 1)
-	sc := &wire.Script{Status: 200, Header: []wire.HeaderLine{{"Content-Type", ctype}, {"Cache-Control", "no-cache"}}, FlushEach: true, WaitFlushAck: ack}
+	sc := &wire.Script{Status: 200, Header: []wire.HeaderLine{{"Content-Type", ctype}, {"Cache-Control", "no-cache"}}, FlushEach: true, WaitFlushAck: ack, DeclareLen: declared}
 	var want [][]byte
 	for k := 0; k < parts; k++ {
 		p := []byte(fmt.Sprintf("data: part-%d-%s\n\n", k, strings.Repeat("x", partSize)))
@@ -57,10 +57,22 @@ func streamOnce(h *helios, be *wire.Backend, ctype string, parts int, partSize i
 	if !strings.Contains(status, " 200 ") {
 		return "stream/status", "status line " + strings.TrimSpace(status)
 	}
-	if !chunked {
+	if !chunked && !declared {
 		return "stream/not-chunked", "a streamed response without declared length arrived without chunked framing"
 	}
-	for k := 0; k < parts; k++ {
+	for k := 0; k < parts && declared; k++ {
+		// declared length: the parts arrive unframed, each as soon as the backend has flushed it
+		got := make([]byte, len(want[k]))
+		c.SetReadDeadline(time.Now().Add(10 * time.Second))
+		if n, err := io.ReadFull(br, got); err != nil {
+			return "stream/part-held-back/declared-length", fmt.Sprintf("%s, Content-Length declared: part %d of %d (%d bytes) flushed by the backend did not reach the client within 10s while the backend was still waiting (%v; got %d bytes of it)", ctype, k+1, parts, len(want[k]), err, n)
+		}
+		if string(got) != string(want[k]) {
+			return "stream/part-altered", fmt.Sprintf("part %d arrived as %q", k+1, got)
+		}
+		ack <- k
+	}
+	for k := 0; k < parts && !declared; k++ {
 		got := []byte{}
 		for len(got) < len(want[k]) {
 			c.SetReadDeadline(time.Now().Add(10 * time.Second))
@@ -98,11 +110,22 @@ func TestVerifC01Stream(t *testing.T) {
 	var outs vres.Outcomes
 	shard, shards := shardOf()
 	i := 0
-	for _, ids := range []bool{false, true} {
+	for _, inst := range []string{"plain", "ids", "features", "plugins", "timeouts"} {
+		ids := inst == "ids"
 		be := wire.NewBackend("b0")
 		cfg := baseConfig("round_robin", be.URL())
 		cfg.Logging.RequestID = config.RequestIDConfig{Enabled: ids}
 		cfg.Logging.Trace = config.TraceConfig{Enabled: ids}
+		switch inst {
+		case "features":
+			cfg.CircuitBreaker = config.CircuitBreakerConfig{Enabled: true, MaxRequests: 1, IntervalSeconds: 60, TimeoutSeconds: 60, FailureThreshold: 1000000, SuccessThreshold: 1}
+			cfg.RateLimit = config.RateLimitConfig{Enabled: true, MaxTokens: 1000000, RefillRate: 1}
+			cfg.HealthChecks.Passive = config.PassiveHealthCheckConfig{Enabled: true, UnhealthyThreshold: 1000000, UnhealthyTimeout: 1}
+		case "plugins":
+			cfg.Plugins = config.PluginsConfig{Enabled: true, Chain: []config.PluginConfig{{Name: "logging"}, sizeLimitCfg(1<<30, 1<<30)}}
+		case "timeouts":
+			cfg.Server.Timeouts = config.TimeoutConfig{Read: 30, Write: 30, Idle: 30, Handler: 30, Shutdown: 5, BackendDial: 5, BackendRead: 30, BackendIdle: 30}
+		}
 		h, err := startHelios(cfg)
 		if err != nil {
 			t.Fatal(err)
@@ -110,18 +133,23 @@ func TestVerifC01Stream(t *testing.T) {
 		for _, ct := range []string{"text/event-stream", "application/octet-stream", "text/plain"} {
 			for parts := 1; parts <= 3; parts++ {
 				for _, sz := range []int{1, 5000} {
-					i++
-					if i%shards != shard {
-						continue
-					}
-					key, what := streamOnce(h, be, ct, parts, sz)
-					evals++
-					outs.Add(fmt.Sprintf("%s/%d/%v", ct, parts, key == ""))
-					if key == "tool" {
-						t.Fatal(what)
-					}
-					if key != "" {
-						r.Violate("C01/"+key, fmt.Sprintf("ids=%v: %s", ids, what), parts, map[string]interface{}{"engine": "W", "test": "TestVerifC01Stream", "content_type": ct, "parts": parts, "size": sz, "ids": ids})
+					for _, declared := range []bool{false, true} {
+						if inst != "plain" && (sz == 1 && parts == 2 || declared && parts == 3) {
+							continue // fewer shapes on the configured instances
+						}
+						i++
+						if i%shards != shard {
+							continue
+						}
+						key, what := streamOnce(h, be, ct, parts, sz, declared)
+						evals++
+						outs.Add(fmt.Sprintf("%s/%s/%d/%v/%v", inst, ct, parts, declared, key == ""))
+						if key == "tool" {
+							t.Fatal(what)
+						}
+						if key != "" {
+							r.Violate("C01/"+key, fmt.Sprintf("instance %s: %s", inst, what), parts, map[string]interface{}{"engine": "W", "test": "TestVerifC01Stream", "content_type": ct, "parts": parts, "size": sz, "instance": inst, "declared": declared})
+						}
 					}
 				}
 			}
@@ -130,8 +158,8 @@ func TestVerifC01Stream(t *testing.T) {
 		be.Close()
 	}
 	r.AddScenario(vres.Scenario{Name: "lock-step-streaming", Engine: "W", Evaluations: evals, Distinct: int64(outs.N()), Outcomes: outs.N(),
-		Rule:  "content type x 1..3 parts x part size x ID middleware on/off; the backend blocks after each flush until the client has read that part through Helios",
-		Bound: "36 lock-step scripts", Exhaustive: true, Sample: map[string]interface{}{"content_type": "text/event-stream", "parts": 3},
+		Rule:  "5 instances (plain, ID middleware, every non-transforming feature on, non-transforming plugins, every timeout configured) x content type x 1..3 parts x part size x length declared or not; the backend blocks after each flush until the client has read that part through Helios",
+		Bound: "all lock-step scripts of the product (fewer shapes on the configured instances)", Exhaustive: true, Sample: map[string]interface{}{"content_type": "text/event-stream", "parts": 3},
 		Extra: map[string]interface{}{"wall_s": time.Since(start).Seconds()}})
 }
 
